@@ -481,3 +481,10 @@ GROUPS["p5"] += [
       "            || index == 0\n", "            || 0 == index\n",
       None),
 ]
+
+GROUPS["g14"] += [
+    # the decade lexer stops looking at what follows again (F13)
+    E("c17-decade-no-boundary", ["C17"], "harper-core/src/lexing/mod.rs",
+      "    if source.get(5).is_some_and(|c| c.is_alphanumeric()) {\n        return None;\n    }\n", "",
+      "R-C17-boundary:entry:lex_long_decade"),
+]
